@@ -434,6 +434,8 @@ func run(c *lib.Ctx, cs caseT) {
 	sess[0].MustExec(create)
 	cs.SQL = []string{create}
 	lowBound := int64(1) // the id counter is at least this (ids stored so far, ALTER values); vmax + 1 = used up
+	ctrUpper := int64(1) // ... and at most this: 1 + every id ever stored, every explicit id ever attempted (a skipped or failed
+	// row raises the counter too: gaps are legal), every ALTER value
 	var steps []string
 	type pf struct{ sig, what string }
 	var fails []pf
@@ -490,7 +492,15 @@ func run(c *lib.Ctx, cs caseT) {
 				storedU[r[1].(int64)] = k
 			}
 		}
-		exhausted := lowBound > d.vmax // the type maximum has been used
+		for _, sp := range ev.Specs {
+			if !sp.Gen && sp.K+1 > ctrUpper {
+				ctrUpper = sp.K + 1
+			}
+		}
+		if lowBound > ctrUpper {
+			ctrUpper = lowBound
+		}
+		exhausted := ctrUpper > d.vmax // the counter may have reached the type maximum
 		fl := &floor
 		if inTx[ev.Sess] {
 			fl = &txFloor[ev.Sess]
@@ -615,7 +625,7 @@ func run(c *lib.Ctx, cs caseT) {
 				case succeeded && mustFail:
 					interesting = true
 					fails = append(fails, pf{"insert-accepted-with-duplicate-id-or-unique-value/" + after, where})
-				case !succeeded && !mustFail && !explicitClash && lowBound+nGen-1 <= d.vmax:
+				case !succeeded && !mustFail && !explicitClash && ctrUpper+nGen-1 <= d.vmax:
 					// only generated ids can have collided: legitimate only when the ids up to the type maximum do not suffice
 					interesting = true
 					if updatedAbove && !lowered {
@@ -638,7 +648,7 @@ func run(c *lib.Ctx, cs caseT) {
 				interesting = true
 				break
 			}
-			if ev.Kind == "odku" && ev.Act == "add" && (explicitClash || lowered || len(seenK) < len(ev.Specs)-int(nGen)) {
+			if ev.Kind == "odku" && ev.Act == "add" && (explicitClash || lowered || updatedAbove || len(seenK) < len(ev.Specs)-int(nGen)) {
 				// id = id + d may have moved a row inserted by this very statement: its rows cannot be told apart by
 				// observation; not judged (the comparison with the model still covers it)
 				c.Count("not-judged:odku-add-may-move-own-rows")
@@ -832,6 +842,9 @@ func run(c *lib.Ctx, cs caseT) {
 			} else {
 				lowBound = ev.K
 			}
+			if ev.K > ctrUpper {
+				ctrUpper = ev.K
+			}
 			if ev.K > maxInserted {
 				maxInserted = ev.K - 1
 			}
@@ -847,6 +860,9 @@ func run(c *lib.Ctx, cs caseT) {
 		for _, k := range ids {
 			if k+1 > lowBound {
 				lowBound = k + 1
+			}
+			if k+1 > ctrUpper {
+				ctrUpper = k + 1
 			}
 		}
 	}
